@@ -147,12 +147,12 @@ Proof.
 Qed.
 
 (* FlexVec walk: every step consumes at least the slot, so fuel > |rem| suffices *)
-Lemma flex_fold_nocrash {A} l os (item : A -> N -> N -> bytes -> res A) :
+Lemma flex_fold_nocrash {A} l os al (item : A -> N -> N -> bytes -> res A) :
   narrow l = true -> 0 < os -> isize l <= os ->
   (forall acc pos pa payload, bytes_ok payload = true -> nocrash (item acc pos pa payload)) ->
   forall fuel acc a rem pos,
     bytes_ok rem = true -> (length rem < fuel)%nat ->
-    nocrash (flex_fold l os item fuel acc a rem pos).
+    nocrash (flex_fold l os al item fuel acc a rem pos).
 Proof.
   intros Hn Hos Hlos Hitem. induction fuel as [|fuel IH]; intros acc a rem pos Hb Hf; [lia|].
   cbn [flex_fold].
@@ -166,6 +166,7 @@ Proof.
   rewrite to_usize_ok by (apply int_max_lt_two64; auto). cbn [bind].
   destruct (N.ltb_spec raw os) as [H1|H1]; [apply nocrash_err|].
   destruct (raw =? int_max l) eqn:Elast; cbn [negb andb orb].
+  2: destruct (negb (raw mod al =? 0)); [apply nocrash_err|].
   - destruct (N.ltb_spec (blen rem) os) as [H2|H2]; [apply nocrash_err|].
     unfold split_at. destruct (N.leb_spec os (blen rem)); [|lia]. cbn [bind snd].
     apply nocrash_bind.
@@ -287,7 +288,7 @@ Proof.
     assert (Hos : 0 < flex_offset_size t l).
     { unfold flex_offset_size. pose proof (umax_ge_r (isize l) (align t)). pose proof (align_pos _ Hwt). lia. }
     assert (Hlos : isize l <= flex_offset_size t l) by (unfold flex_offset_size; apply umax_ge_l).
-    apply (flex_fold_nocrash l _ _ Hnl Hos Hlos).
+    apply (flex_fold_nocrash l _ _ _ Hnl Hos Hlos).
     + intros acc pos pa payload Hbp. apply nocrash_shift.
       apply nocrash_bind; [apply check_align_min_nocrash|].
       intros [] Hc. apply IH; auto. eapply check_align_min_ok; eauto.
